@@ -18,6 +18,7 @@ type Timer struct {
 	c        *Chan
 	fn       func()
 	fires    int
+	idleOnly bool // harness observer timer: fires only when no other transition is enabled
 }
 
 func (t *Timer) stateHash() H {
@@ -200,4 +201,19 @@ func Note(vals ...uint64) {
 		return
 	}
 	s.bump(s.cur, append([]uint64{0x78}, vals...)...)
+}
+
+// SleepIdle blocks the calling (harness) goroutine until virtual time has
+// advanced by d AND nothing else can happen: unlike a library timer, which may
+// fire arbitrarily late relative to computation but also arbitrarily early
+// relative to slow goroutines, an observer wants to look at the system once
+// it is quiescent at that time.
+func SleepIdle(d time.Duration) {
+	s := current
+	if s == nil || s.aborting {
+		return
+	}
+	t := s.newTimer(d, nil)
+	t.idleOnly = true
+	Recv(t.C)
 }
